@@ -41,7 +41,7 @@ CHECK = {
                "rt_image_on_dropped": 0.07, "rt_image_on_retained": 0.25, "rt_cut_inside": 0.12, "rt_system_before_cut": 0.2,
                "generate_with_images": 0.07, "generate_context": 0.03, "num_ctx_source_matters": 0.25,
                "parallel_2": 0.2, "parallel_slots_would_matter": 0.1, "rt_tmpl_commandr": 0.07, "rt_model_clip": 0.25},
-    "rule": "rapid-generated conversations of 1-12 messages (roles system/user/assistant/tool in any order; 0-6 words per message "
+    "rule": "Added in the last session: a tokenizer fault during sizing, tool definitions rendered by template rangetools, conversations that attach the same picture again. rapid-generated conversations of 1-12 messages (roles system/user/assistant/tool in any order; 0-6 words per message "
             "from an alphabet without template delimiters, a word may be the literal placeholder [img], some messages repeated to 150 words; 0-2 "
             "images on user messages, rarely on assistant/tool messages), context length absolute (1..100000) or relative to the token count of a drawn suffix (-3..+5), templates "
             "{range .Messages, .System header + range, legacy .System/.Prompt/.Response, repo chatml, repo llama3-instruct}, "
